@@ -341,3 +341,157 @@ func computeKeyOverrides(funcs []*ssa.Function) {
 		}
 	}
 }
+
+// ---- loop specifications when loops were added to or removed from a function ----
+//
+// `loop N` blocks are keyed by the ordinal of the loop in source order. When the number of loops
+// of a function no longer equals the number of its loop blocks (a loop moved into a helper, two
+// loops merged, a new loop), the blocks are re-attached in source order to the loops they fit
+// best: the fit of a block to a loop is the number of identifiers of its clauses that the loop
+// assigns (header phis, stores through, map updates). A block left over is dropped (NOTE), a
+// loop left over is checked by bounded unrolling (§2.4) - neither is silently assumed.
+
+type loopMatch struct {
+	specOf  map[int]int // loop ordinal -> spec ordinal
+	dropped []int       // spec ordinals without a loop
+}
+
+var loopMatches = map[*ssa.Function]*loopMatch{}
+var droppedLoopSpecs = map[string][]int{} // function key -> dropped spec ordinals (for the report)
+
+func identsOf(e *SExpr, out map[string]bool) {
+	if e == nil {
+		return
+	}
+	if e.Kind == "ident" {
+		out[e.Name] = true
+	}
+	for _, a := range e.Args {
+		identsOf(a, out)
+	}
+}
+
+func (ex *Exec) loopAssigned(fn *ssa.Function, h *ssa.BasicBlock) map[string]bool {
+	out := map[string]bool{}
+	li := loopsOf(fn)
+	for _, ins := range h.Instrs {
+		if phi, ok := ins.(*ssa.Phi); ok && phi.Comment != "" {
+			out[phi.Comment] = true
+		}
+	}
+	for b := range li.body[h] {
+		for _, ins := range b.Instrs {
+			switch x := ins.(type) {
+			case *ssa.Store:
+				out[ex.operandName(fn, x.Addr)] = true
+				if ia, ok := x.Addr.(*ssa.IndexAddr); ok {
+					out[ex.operandName(fn, ia.X)] = true
+				}
+			case *ssa.MapUpdate:
+				out[ex.operandName(fn, x.Map)] = true
+			}
+		}
+	}
+	// old names of renamed variables count as well
+	for old, news := range ex.aliasesOf(fn) {
+		for _, n := range news {
+			if out[n] {
+				out[old] = true
+			}
+		}
+	}
+	return out
+}
+
+func (ex *Exec) matchLoops(fn *ssa.Function, c *Contract) *loopMatch {
+	if m, ok := loopMatches[fn]; ok {
+		return m
+	}
+	li := loopsOf(fn)
+	n := len(li.headers)
+	m := &loopMatch{specOf: map[int]int{}}
+	loopMatches[fn] = m
+	var specOrds []int
+	for o := range c.Loops {
+		specOrds = append(specOrds, o)
+	}
+	sort.Ints(specOrds)
+	direct := len(specOrds) == n
+	for i, o := range specOrds {
+		if o != i {
+			direct = false
+		}
+	}
+	if direct || len(specOrds) == 0 {
+		for _, o := range specOrds {
+			m.specOf[o] = o
+		}
+		return m
+	}
+	headers := make([]*ssa.BasicBlock, n)
+	for h, o := range li.headers {
+		headers[o] = h
+	}
+	score := make([][]int, len(specOrds))
+	for i, so := range specOrds {
+		ids := map[string]bool{}
+		ls := c.Loops[so]
+		for _, cl := range ls.Invariants {
+			identsOf(cl.Expr, ids)
+		}
+		for _, cl := range ls.Steps {
+			identsOf(cl.Expr, ids)
+		}
+		identsOf(ls.Decreases, ids)
+		score[i] = make([]int, n)
+		for l := 0; l < n; l++ {
+			as := ex.loopAssigned(fn, headers[l])
+			for id := range ids {
+				if as[id] {
+					score[i][l] += 2
+				}
+			}
+			score[i][l]++ // any pairing beats none
+		}
+	}
+	// best order-preserving partial matching (dynamic programming)
+	S, L := len(specOrds), n
+	best := make([][]int, S+1)
+	choice := make([][]int, S+1)
+	for i := range best {
+		best[i] = make([]int, L+1)
+		choice[i] = make([]int, L+1)
+	}
+	for i := S - 1; i >= 0; i-- {
+		for l := L - 1; l >= 0; l-- {
+			best[i][l], choice[i][l] = best[i+1][l], 1 // drop spec i
+			if best[i][l+1] > best[i][l] {
+				best[i][l], choice[i][l] = best[i][l+1], 2 // leave loop l without a spec
+			}
+			if v := score[i][l] + best[i+1][l+1]; v > best[i][l] {
+				best[i][l], choice[i][l] = v, 3
+			}
+		}
+	}
+	i, l := 0, 0
+	for i < S && l < L {
+		switch choice[i][l] {
+		case 3:
+			m.specOf[l] = specOrds[i]
+			i++
+			l++
+		case 2:
+			l++
+		default:
+			m.dropped = append(m.dropped, specOrds[i])
+			i++
+		}
+	}
+	for ; i < S; i++ {
+		m.dropped = append(m.dropped, specOrds[i])
+	}
+	if len(m.dropped) > 0 {
+		droppedLoopSpecs[fnKeyOf(fn)] = m.dropped
+	}
+	return m
+}
